@@ -11,6 +11,7 @@ in values; the keyword `dn` in any case); `GRfc`: RFC 4515 as written (+ the doc
 import Ldap3V.Lemmas.FilterPrint
 import Ldap3V.Lemmas.FilterTlv
 import Ldap3V.Lemmas.FilterDialect
+import Ldap3V.Lemmas.GenPureFeed
 namespace Ldap3V
 open Spec.Filter
 open Spec (Filter)
@@ -214,5 +215,23 @@ example : IsAttrDesc .lib [0x61] ∧ (0x2A : UInt8) ∈ [0x3D, 0x62, 0x2A] :=
 example : G .lib (.eq [0x61] [0x76]) [0x28, 0x61, 0x3D, 0x76, 0x29] := by
   simp only [G]
   exact ⟨_, GItem.eq ⟨[0x61], [], Or.inl (by decide), by simp, rfl⟩ (.lit (by decide) .nil), rfl⟩
+
+/-! ### tie by regeneration (translate/pure_fns.py): the lexical classes and the `\\hh` state machine of
+the *current* src/filter.rs are the model's. -/
+
+/-- `is_value_char`, `is_alnum_hyphen` and `Unescaper::feed` as written in src/filter.rs today agree with
+`Filter.isValueChar`, `Filter.isAlnumHyphen` and `Unescaper.feed` on every byte and in every state (the
+checked `u8` arithmetic of the nibble computation never overflows: the result is never `none`). -/
+theorem C08_lexer_source (u : Rust.Unescaper) (c : UInt8) :
+    Gen.filter_is_value_char c = some (Filter.isValueChar c) ∧
+    Gen.filter_is_alnum_hyphen c = some (Filter.isAlnumHyphen c) ∧
+    (Gen.unescaper_feed u c).map unescOfRust = some ((unescOfRust u).feed c) :=
+  ⟨gen_is_value_char c, gen_is_alnum_hyphen c, gen_feed u c⟩
+
+-- non-vacuity: `\\4` then `1` yields the byte `A`; `g` is not a hex digit
+example : Gen.unescaper_feed .WantFirst 0x34 = some (.WantSecond 4) ∧
+    Gen.unescaper_feed (.WantSecond 4) 0x31 = some (.Value 0x41) ∧
+    Gen.unescaper_feed .WantFirst 0x67 = some .Error ∧ Gen.filter_is_value_char 0x2A = some false := by decide
+
 
 end Ldap3V
